@@ -156,6 +156,16 @@ class SpecGen:
                 dn = self.add({"k": "opt", "key": r.choice(["C", "S.Z"]), "default": {"t": "const", "v": r.sample([0, 1, 2, "a", "b", None], 3)}})
                 self.unused.remove(dn)
                 node["domain"] = {"t": "expr", "n": dn}
+        if cfg["opt_domain_expr"] and cfg["opt_domain"] and r.random() < 0.12:
+            # an option-valued domain that can never exclude the default: the domain option DOM is either absent (its own
+            # default list contains this option's default) or holds the full value universe (see DictGen)
+            dv = r.choice([0, 1, 2, True, False, None])
+            node["default"] = {"t": "const", "v": dv}
+            dn = self.add({"k": "opt", "key": "DOM", "default": {"t": "const", "v": [dv] + r.sample([0, 1, "a", "b"], 2)}})
+            self.unused.remove(dn)
+            node["domain"] = {"t": "expr", "n": dn}
+            whole = key in U.WHOLE_KEYS
+            return self.add(node, hashable=not whole, list=(key == "L"))
         # A default outside its own declared domain is an ill-formed program, not an input (C10's
         # precondition "option values lie in their declared domains"): validate() accepts it, evaluate()
         # rejects it.  Keep constant defaults inside the domain; no domain next to computed defaults.
@@ -309,15 +319,52 @@ class SpecGen:
         keys = r.sample(["k1", "k2", "k3"], r.randint(1, 2))
         return self.add({"k": "dict", "items": [[k, self.pick_any()] for k in keys]})
 
+    def _dispatch_keys_under(self, nid, seen=None):
+        """[(option key, aliases)] of the switches / dispatching datasets beneath a node whose dispatch is an option key."""
+        seen = seen if seen is not None else set()
+        if nid in seen:
+            return []
+        seen.add(nid)
+        n = next(x for x in self.nodes if x["id"] == nid)
+        out = []
+        disp = n.get("dispatch") if n["k"] in ("switch", "dataset") else None
+        key = None
+        if isinstance(disp, str):
+            key = disp
+        elif isinstance(disp, dict):
+            m = next(x for x in self.nodes if x["id"] == disp["n"])
+            if m["k"] == "opt":
+                key = m["key"]
+        if key is not None:
+            aliases = [c for c, _ in n["lookup"]] if n["k"] == "switch" else [a for al, _ in n.get("overloads", []) for a in (al if isinstance(al, list) else [al])]
+            out.append((key, [a for a in aliases if not isinstance(a, list)]))
+        for c in children(n):
+            out.extend(self._dispatch_keys_under(c, seen))
+        return out
+
     def g_map(self):
         r = self.rng
         target = self.pick(lambda i: self.info[i]["is_ds"]) or self.pick_any()
         iterables = {}
-        for key in r.sample(["A", "B", "S.X", "S.Y", "M"], r.randint(1, 2)):
-            if r.random() < 0.5:
-                it = self.add({"k": "val", "v": r.sample([0, 1, 2, "a", "b"], r.randint(0, 2))})
+        keys = r.sample(["A", "B", "S.X", "S.Y", "M"], r.randint(1, 2))
+        disp = [d for d in self._dispatch_keys_under(target) if d[0] not in U.WHOLE_KEYS and not d[0].startswith("L")]
+        forced_values = {}
+        if disp and r.random() < 0.6:
+            # map over a key the target DISPATCHES on, with values selecting different branches: each element then has
+            # its own key set (what a Map must union over all elements, not read off the first one)
+            k, aliases = r.choice(disp)
+            keys = [k] + [x for x in keys if x != k][: r.randint(0, 1)]
+            pool = list(aliases) + ["zz"]
+            r.shuffle(pool)
+            forced_values[k] = pool[: max(2, min(3, len(pool)))]
+        for key in keys:
+            if key in forced_values:
+                it = self.add({"k": "val", "v": forced_values[key]})
+            elif r.random() < 0.5:
+                # (True / 1 and False / 0 are equal as dictionary keys but not as option values)
+                it = self.add({"k": "val", "v": r.sample([0, 1, 2, "a", "b", True, False], r.randint(0, 3))})
             else:
-                it = self.add({"k": "opt", "key": "L", "default": {"t": "const", "v": r.sample([0, 1, "a"], r.randint(1, 2))}}, list=True)
+                it = self.add({"k": "opt", "key": "L", "default": {"t": "const", "v": r.sample([0, 1, "a", True], r.randint(1, 2))}}, list=True)
             self.unused.remove(it)
             iterables[key] = it
         return self.add({"k": "map", "target": target, "iterables": iterables, "values": r.random() < 0.3}, hashable=True)
@@ -342,6 +389,9 @@ class SpecGen:
                 parts.append(r.choice(["lit", "x", "-"]))
         if not any(p.startswith("{") for p in parts):
             parts.append("{" + self.key(scalar_only=True) + "}")
+        if r.random() < 0.12:
+            # a parameter the text does not refer to (labrea warns, and still evaluates it)
+            params["unused"] = self.pick(lambda j: self._str_stable(j)) or self.selector_leaf()
         return self.add({"k": "template", "text": "_".join(parts), "params": params}, hashable=True)
 
     def _str_stable(self, nid, seen=None):
@@ -694,7 +744,10 @@ def spec_ok(spec):
                     return False
         elif k == "opt" and n.get("domain") and n.get("default"):
             d, dom = n["default"], n["domain"]
-            if not (d["t"] in ("const", "factory") and dom["t"] in ("container", "pred") and U.canon(d["v"]) in [U.canon(x) for x in dom["v"]]):
+            if dom["t"] == "expr" and by[dom["n"]]["k"] == "opt" and by[dom["n"]]["key"] == "DOM" and d["t"] == "const":
+                if U.canon(d["v"]) not in [U.canon(x) for x in (by[dom["n"]].get("default") or {}).get("v", [])]:
+                    return False
+            elif not (d["t"] in ("const", "factory") and dom["t"] in ("container", "pred") and U.canon(d["v"]) in [U.canon(x) for x in dom["v"]]):
                 return False
         elif k == "dataset":
             for _, impl in n.get("overloads", []):
